@@ -127,6 +127,114 @@ const PROGRAMS_EXTRA: [(&str, Option<&str>); 2] = [
     ("import { order } from \"tsrun:host\"; const ms: any[] = [{ k: 1 }, { k: 2 }].map(order); const junk: any[] = []; for (let i = 0; i < 30; i++) { junk.push({ i: i }); } const out: any[] = []; for (const m of ms) { out.push(await m); } JSON.stringify(out.map((x: any) => x === undefined ? null : x))", None),
 ];
 
+// ───────────── a host regular-expression engine (tsrun_set_regexp_provider) ─────────────
+// ABI as in tsrun.h. The engine knows two pattern shapes: `c*` (zero or more of one character)
+// and a literal. It checks what the library hands it: pointers non-null, start_pos <= input_len,
+// every compiled handle freed exactly once.
+#[repr(C)]
+struct HostRegexCapture {
+    start: isize,
+    end: isize,
+}
+#[repr(C)]
+struct HostRegexMatch {
+    start: usize,
+    end: usize,
+    captures: *mut HostRegexCapture,
+    capture_count: usize,
+}
+#[repr(C)]
+struct HostRegexCallbacks {
+    compile: extern "C" fn(*mut c_void, *const c_char, *const c_char, *mut *const c_char) -> *mut c_void,
+    is_match: extern "C" fn(*mut c_void, *mut c_void, *const c_char, usize, *mut *const c_char) -> i32,
+    find: extern "C" fn(*mut c_void, *mut c_void, *const c_char, usize, usize, *mut HostRegexMatch, *mut *const c_char) -> i32,
+    free: extern "C" fn(*mut c_void, *mut c_void),
+    free_captures: Option<extern "C" fn(*mut c_void, *mut HostRegexCapture, usize)>,
+    userdata: *mut c_void,
+}
+unsafe extern "C" {
+    fn tsrun_set_regexp_provider(ctx: *mut TsRunContext, callbacks: *const HostRegexCallbacks) -> TsRunResult;
+}
+thread_local! {
+    /// (contract violations seen by the engine, handles compiled, handles freed)
+    static HOST_REGEX: std::cell::RefCell<(Vec<String>, u64, u64)> = const { std::cell::RefCell::new((Vec::new(), 0, 0)) };
+}
+fn host_regex_note(msg: String) {
+    HOST_REGEX.with(|h| {
+        let mut h = h.borrow_mut();
+        if h.0.len() < 8 {
+            h.0.push(msg);
+        }
+    });
+}
+extern "C" fn hre_compile(_ud: *mut c_void, pattern: *const c_char, _flags: *const c_char, error_out: *mut *const c_char) -> *mut c_void {
+    let Some(Ok(p)) = (unsafe { read_cstr(pattern) }) else {
+        if !error_out.is_null() {
+            unsafe { *error_out = c"pattern is not a string".as_ptr() };
+        }
+        return ptr::null_mut();
+    };
+    HOST_REGEX.with(|h| h.borrow_mut().1 += 1);
+    Box::into_raw(Box::new(p)) as *mut c_void
+}
+/// match of the pattern at or after `from` in `input`: (start, end)
+fn hre_search(pat: &str, input: &[u8], from: usize) -> Option<(usize, usize)> {
+    let pb = pat.as_bytes();
+    if pb.len() == 2 && pb[1] == b'*' {
+        let mut e = from;
+        while e < input.len() && input[e] == pb[0] {
+            e += 1;
+        }
+        return Some((from, e));
+    }
+    if pb.is_empty() {
+        return Some((from, from));
+    }
+    (from..=input.len().saturating_sub(pb.len())).find(|i| input.len() >= pb.len() && &input[*i..*i + pb.len()] == pb).map(|i| (i, i + pb.len()))
+}
+extern "C" fn hre_is_match(_ud: *mut c_void, handle: *mut c_void, input: *const c_char, len: usize, _e: *mut *const c_char) -> i32 {
+    if handle.is_null() || (input.is_null() && len > 0) {
+        host_regex_note("is_match called with a NULL handle or input".into());
+        return -1;
+    }
+    let pat = unsafe { &*(handle as *const String) };
+    let bytes = if len == 0 { &[][..] } else { unsafe { std::slice::from_raw_parts(input as *const u8, len) } };
+    hre_search(pat, bytes, 0).is_some() as i32
+}
+extern "C" fn hre_find(_ud: *mut c_void, handle: *mut c_void, input: *const c_char, len: usize, start_pos: usize, out: *mut HostRegexMatch, _e: *mut *const c_char) -> i32 {
+    if handle.is_null() || out.is_null() || (input.is_null() && len > 0) {
+        host_regex_note("find called with a NULL handle, input or match_out".into());
+        return -1;
+    }
+    if start_pos > len {
+        // a C engine would now compute input + start_pos and input_len - start_pos
+        host_regex_note(format!("find asked to search at start_pos {} beyond input_len {}", start_pos, len));
+        return 0;
+    }
+    let pat = unsafe { &*(handle as *const String) };
+    let bytes = if len == 0 { &[][..] } else { unsafe { std::slice::from_raw_parts(input as *const u8, len) } };
+    match hre_search(pat, bytes, start_pos) {
+        Some((s, e)) => {
+            unsafe {
+                (*out).start = s;
+                (*out).end = e;
+                (*out).captures = ptr::null_mut();
+                (*out).capture_count = 0;
+            }
+            1
+        }
+        None => 0,
+    }
+}
+extern "C" fn hre_free(_ud: *mut c_void, handle: *mut c_void) {
+    if handle.is_null() {
+        host_regex_note("free called with NULL".into());
+        return;
+    }
+    HOST_REGEX.with(|h| h.borrow_mut().2 += 1);
+    drop(unsafe { Box::from_raw(handle as *mut String) });
+}
+
 #[derive(Clone)]
 struct H {
     ptr: *mut TsRunValue,
@@ -1218,6 +1326,35 @@ impl<'a> Exec<'a> {
                         return;
                     }
                     self.rep.bump("episodes", 1);
+                    if kind % 3 == 2 {
+                        // a host regular-expression engine behind tsrun_set_regexp_provider
+                        HOST_REGEX.with(|h| *h.borrow_mut() = (Vec::new(), 0, 0));
+                        let cbs = HostRegexCallbacks { compile: hre_compile, is_match: hre_is_match, find: hre_find, free: hre_free, free_captures: None, userdata: ptr::null_mut() };
+                        let r = tsrun_set_regexp_provider(ctx, &cbs);
+                        if !r.ok {
+                            self.fail("episode_set_regexp_provider_failed", "tsrun_set_regexp_provider".into(), json!({}));
+                        }
+                        let subjects = ["axxb", "xx", "", "日本x", "bxxa xx"];
+                        let sub = subjects[*pad as usize % subjects.len()];
+                        let code = self.c(&format!(
+                            "const s: string = \"{sub}\"; const out: any[] = []; try {{ out.push(s.replace(/x*/g, \"-\")); out.push(s.split(/x*/).length); out.push((s.match(/x*/g) || []).length); out.push(s.replaceAll(\"x\", \"y\")); out.push(/xx/.test(s)); out.push(s.search(/b/)); out.push([...s.matchAll(/x*/g)].length); }} catch (e: any) {{ out.push(\"threw:\" + String(e && e.message)); }} JSON.stringify(out)"
+                        ));
+                        let pr = tsrun_prepare(ctx, code, ptr::null());
+                        if pr.ok {
+                            let mut res = TsRunStepResult::default();
+                            tsrun_run(&mut res, ctx);
+                            tsrun_step_result_free(&mut res);
+                        }
+                        tsrun_free(ctx);
+                        let (notes, compiled, freed) = HOST_REGEX.with(|h| h.borrow().clone());
+                        if let Some(n) = notes.first() {
+                            self.fail("host_regexp_engine_called_outside_its_contract", n.chars().take(160).collect(), json!({"notes": notes, "subject": sub}));
+                        } else if freed > compiled {
+                            self.fail("host_regexp_handle_freed_twice", format!("compiled {} freed {}", compiled, freed), json!({}));
+                        }
+                        self.rep.bump("episode_host_regexp_engine", 1);
+                        return;
+                    }
                     if kind % 2 == 0 {
                         // throwaway objects first: moves the point where the threshold collector runs
                         for i in 0..(*pad as usize % 130) {
@@ -1636,7 +1773,7 @@ pub fn generate_history(rng: &mut Rng) -> Scn {
             35 => Op::DetachAlias(a, b, c % 2 == 0, (d & 0xff) as u8),
             36 => Op::CallSelfWriter(a, c),
             37 => Op::CallNativeWithNative(a, c),
-            _ => Op::Episode(a % 2, c, (d & 0xff) as u8),
+            _ => Op::Episode(a % 6, c, (d & 0xff) as u8),
         });
     }
     Scn {
